@@ -29,7 +29,7 @@ FAMILIES = {
              'handler timeouts that cancel an awaiting handler while it processes other events inline; '
              'non-trivial: some run loop holds a taken event while another process runs (take not immediately followed by its peBegin)'),
     'C03': dict(
-        gens=[('core', dict(tasklen=(2, 7)), 0.65), ('chain', dict(p_timeout=0.2, p_await=0.4, p_parallel=0.2), 0.27),
+        gens=[('core', dict(tasklen=(2, 7)), 0.55), ('core', dict(tasklen=(2, 7), p_wal=0.7, p_payload=0.7, p_walfault=0.15), 0.1), ('chain', dict(p_timeout=0.2, p_await=0.4, p_parallel=0.2), 0.27),
               ('stop', dict(p_cancel=0.1), 0.08)],
         facets=CORE + ['signal', 'results', 'lineage', 'history', 'recursion', 'lock', 'await', 'stop', 'runloop'],
         rule='event trees of depth <= 4 with awaited and fire-and-forget children on any bus, raising handlers, small histories; '
@@ -38,23 +38,23 @@ FAMILIES = {
         gens=[('core', dict(nb=(1, 3), proglen=(1, 6)), 0.32), ('core', dict(nb=(2, 3), proglen=(1, 6), p_samenames=1.0), 0.08), ('core', dict(nb=(1, 2), proglen=(2, 6), p_timeout=0.5, nh=(2, 7)), 0.15),
               ('chain', dict(), 0.15), ('chain', dict(p_timeout=1.0, p_await=0.95, min_depth=3, nb=(1, 1), maxh=(50,)), 0.15), ('deep', dict(), 0.08),
               ('parraise', dict(), 0.07)],
-        facets=CORE + ['await', 'signal', 'lock', 'results', 'lineage', 'timeout'],
+        facets=CORE + ['await', 'signal', 'lock', 'results', 'lineage', 'timeout', 'recursion'],
         rule='handlers that dispatch to any bus and await with sleeps/yields before and during the await, nesting <= 4; '
              'non-trivial: an in-handler await occurs'),
     'C05': dict(
-        gens=[('core', dict(nb=(1, 3), proglen=(1, 6), tasklen=(2, 7)), 0.45), ('chain', dict(p_timeout=0.0, p_unrelated=0.8, p_parallel=0.2), 0.2),
+        gens=[('core', dict(nb=(1, 3), proglen=(1, 6), tasklen=(2, 7)), 0.4), ('parraise', dict(), 0.05), ('chain', dict(p_timeout=0.0, p_unrelated=0.8, p_parallel=0.2), 0.2),
               ('chain', dict(p_timeout=1.0, p_await=0.95, min_depth=3, nb=(1, 1), maxh=(50,), p_unrelated=0.6), 0.25), ('deep', dict(), 0.1)],
         facets=CORE + ['await', 'signal', 'lock', 'timeout', 'results'],
         rule='queues holding 0-4 unrelated events before/after the awaited child on the same/other buses, external dispatch during the window; '
              'non-trivial: an in-handler await occurs while another event is queued somewhere'),
     'C06': dict(
-        gens=[('core', dict(nb=(2, 3)), 0.55), ('core', dict(nb=(2, 3), p_timeout=0.6, p_cleanup=0.6, proglen=(1, 5)), 0.3),
+        gens=[('core', dict(nb=(2, 3)), 0.45), ('stop', dict(p_cancel=0.1), 0.1), ('core', dict(nb=(2, 3), p_timeout=0.6, p_cleanup=0.6, proglen=(1, 5)), 0.3),
               ('core', dict(nb=(2, 3), p_parallel=0.7, p_dupnames=1.0, nh=(3, 8), p_sync=0.05, p_wild=0.4, proglen=(1, 5)), 0.15)],
         facets=CORE + ['lock', 'await', 'timeout'],
         rule='2-3 buses, first use of a bus from main code / from inside a handler / inside an awaited child, long handlers; '
              'non-trivial: two buses each start a handler'),
     'C07': dict(
-        gens=[('core', dict(nb=(2, 3), p_forward=0.45, p_wild=0.4), 0.4),
+        gens=[('core', dict(nb=(2, 3), p_forward=0.45, p_wild=0.4), 0.32), ('fwdfail', dict(), 0.08),
               ('core', dict(nb=(2, 4), p_forward=0.5, p_wild=0.5, p_redispatch=0.25, nh=(2, 8)), 0.2),
               ('core', dict(nb=(3, 4), p_forward=0.6, p_wild=0.6, nh=(3, 8), p_samenames=1.0), 0.1),
               ('core', dict(nb=(2, 3), p_forward=0.4, p_wild=0.5, p_timeout=0.6, nh=(3, 8), proglen=(1, 4)), 0.22), ('deepfwd', dict(), 0.08)],
@@ -62,7 +62,7 @@ FAMILIES = {
         rule='random forwarding digraphs (incl. self loops, several wildcard forwards per bus) with ordinary handlers and concurrent traffic; '
              'non-trivial: some forwarding handler dispatches'),
     'C08': dict(
-        gens=[('core', dict(nb=(2, 3), p_forward=0.35, p_wild=0.3), 0.5), ('core', dict(p_timeout=0.5, proglen=(1, 6)), 0.2),
+        gens=[('core', dict(nb=(2, 3), p_forward=0.35, p_wild=0.3), 0.42), ('core', dict(nb=(2, 3), p_samenames=1.0, proglen=(1, 6)), 0.08), ('core', dict(p_timeout=0.5, proglen=(1, 6)), 0.2),
               ('chain', dict(p_timeout=0.8, p_await=0.6), 0.2), ('deep', dict(), 0.06), ('parshare', dict(), 0.04)],
         facets=CORE + ['results', 'signal', 'lineage', 'timeout', 'await'],
         rule='forwarding chains/diamonds with slow downstream handlers, external awaits; every state after first completion is an observation point; '
@@ -82,13 +82,13 @@ FAMILIES = {
         rule='per-type timeouts (odd multiples of 1/128 s) against handler programs of sleeps (multiples of 1/64 s), nested awaits; serial buses; '
              'non-trivial: a handler is cancelled by a deadline'),
     'C11': dict(
-        gens=[('core', dict(p_raise=0.3), 0.5), ('core', dict(p_raise=0.4, p_rtype=0.6), 0.2), ('core', dict(p_raise=0.3, p_parallel=0.7, nb=(2, 3), proglen=(2, 6)), 0.1),
+        gens=[('core', dict(p_raise=0.3), 0.42), ('backlog', dict(), 0.04), ('fwdfail', dict(), 0.04), ('core', dict(p_raise=0.4, p_rtype=0.6), 0.2), ('core', dict(p_raise=0.3, p_parallel=0.7, nb=(2, 3), proglen=(2, 6)), 0.1),
               ('parraise', dict(), 0.1), ('chain', dict(p_timeout=1.0, p_raise=0.2), 0.1)],
         facets=CORE + ['results', 'signal', 'timeout'],
         rule='raising handlers at every position (parent, child, awaited child, forwarded bus; sync and async, before/after suspension); '
              'non-trivial: a handler raises'),
     'C13': dict(
-        gens=[('core', dict(maxh=[1, 2, 3, 4, 5], tasklen=(3, 8)), 1.0)],
+        gens=[('core', dict(maxh=[1, 2, 3, 4, 5], tasklen=(3, 8)), 0.9), ('evictgap', dict(), 0.1)],
         facets=['history', 'capacity', 'harness', 'other', 'queue'],
         rule='max_history_size 1-5, bursts larger than N, nested dispatch, slow handlers; non-trivial: an eviction happens'),
     'C14': dict(
@@ -142,6 +142,7 @@ def gen_backlog(rng, p_waitidle=0.0, **_):
         if rng.random() < 0.5:
             prog.insert(rng.randrange(len(prog)), ['sleep', 1 / 64])
         retry = rng.random() < 0.4
+        strict = rng.random() < 0.3      # the handler lets the exception of the first refused dispatch escape
         sc['handlers'].append({'bus': 0, 'key': 'A', 'kind': rng.choice(['async', 'sync']), 'prog': [p for p in prog if p[0] != 'sleep'] if False else prog})
         if sc['handlers'][-1]['kind'] == 'sync':
             sc['handlers'][-1]['prog'] = [p for p in prog if p[0] != 'sleep']
@@ -149,6 +150,10 @@ def gen_backlog(rng, p_waitidle=0.0, **_):
             # let the queue drain by awaiting an early child, then dispatch the last (probably refused) events again
             sc['handlers'][-1]['prog'] = prog + [['await', rng.randrange(3)]] + [['redispatch', n - 1 - j, tgt] for j in range(rng.randint(1, 3))]
         sc['tasks'].append([['dispatch', 0, 'A', 0], ['await', 0]])
+        if strict:
+            sc['handlers'][-1]['prog'].insert(0, ['strict'])
+            if rng.random() < 0.5:
+                sc['handlers'].append({'bus': 0, 'key': rng.choice(['A', '*']), 'kind': 'async', 'prog': [['sleep', rng.choice([0, 1 / 64])]]})
     else:
         sc['tasks'].append([['dispatch', tgt, 'D', i] for i in range(n)] + [['sleep', 1 / 64], ['dispatch', tgt, 'D', n]])
     if rng.random() < 0.5:
@@ -160,7 +165,7 @@ def gen_backlog(rng, p_waitidle=0.0, **_):
     return sc
 
 
-GENS = {'core': gen.gen_core, 'backlog': gen_backlog, 'chain': gen.gen_chain, 'stop': gen.gen_stop, 'idle': gen.gen_idle, 'deep': gen.gen_deep, 'sibling': gen.gen_sibling, 'parraise': gen.gen_parraise, 'deepfwd': gen.gen_deepfwd, 'parshare': gen.gen_parshare, 'partimeout': gen.gen_partimeout, 'cycle': gen.gen_cycle, 'errnest': gen.gen_errnest}
+GENS = {'core': gen.gen_core, 'backlog': gen_backlog, 'chain': gen.gen_chain, 'stop': gen.gen_stop, 'idle': gen.gen_idle, 'deep': gen.gen_deep, 'sibling': gen.gen_sibling, 'parraise': gen.gen_parraise, 'deepfwd': gen.gen_deepfwd, 'parshare': gen.gen_parshare, 'partimeout': gen.gen_partimeout, 'cycle': gen.gen_cycle, 'errnest': gen.gen_errnest, 'fwdfail': gen.gen_fwdfail, 'evictgap': gen.gen_evictgap}
 
 
 def corpus(prop):
